@@ -347,6 +347,20 @@ def fixed_table():
         t.append(("operator a + b", "right=" + x, ["'h' / Byte + %s" % x, "Struct('h' / Byte, %s)" % x], {}))
         t.append(("operator a + b", "left=" + x, ["%s + 't' / Byte" % x, "Struct(%s, 't' / Byte)" % x], {}))
     t.append(("AlignedStruct docstring", "", ["AlignedStruct(4, 'a' / Int8ub, 'b' / Int16ub)", "Struct('a' / Aligned(4, Int8ub), 'b' / Aligned(4, Int16ub))"], {}))
+    # the Int24ul chain with the byte order taken from the context (documented: swapped may be a context lambda) and with signed integers
+    for n in (2, 3, 5):
+        for sg in (False, True):
+            t.append(("ByteSwapped(BytesInteger) chain", "n=%d,signed=%s,order from the context" % (n, sg),
+                      ["ByteSwapped(BytesInteger(%d, signed=%s, swapped=this._params.c))" % (n, sg), "BytesInteger(%d, signed=%s, swapped=lambda ctx: not ctx._params.c)" % (n, sg),
+                       "Transformed(BytesInteger(%d, signed=%s, swapped=this._params.c), swapbytes, %d, swapbytes, %d)" % (n, sg, n, n)], {}))
+            for le in (True, False):
+                t.append(("ByteSwapped(BytesInteger) chain", "n=%d,signed=%s,le=%s" % (n, sg, le),
+                          ["ByteSwapped(BytesInteger(%d, signed=%s, swapped=%s))" % (n, sg, le), "BytesInteger(%d, signed=%s, swapped=%s)" % (n, sg, not le)], {}))
+    # If as a member of a structure: the wrapper is anonymous and does not build from nothing unless its branch does
+    for cond in ("True", "False", "this._params.c", "this._params.c > 1"):
+        t.append(("If <--> IfThenElse as a member", "named-branch,%s" % cond, ["Struct(If(%s, 'a' / Byte), 'w' / Byte)" % cond, "Struct(IfThenElse(%s, 'a' / Byte, Pass), 'w' / Byte)" % cond], {}))
+        t.append(("If <--> IfThenElse as a member", "named-wrapper,%s" % cond, ["Struct('v' / If(%s, Int16ub), 'w' / Byte)" % cond, "Struct('v' / IfThenElse(%s, Int16ub, Pass), 'w' / Byte)" % cond], {}))
+        t.append(("If <--> IfThenElse as a member", "sequence,%s" % cond, ["Sequence(If(%s, 'a' / Byte), Byte)" % cond, "Sequence(IfThenElse(%s, 'a' / Byte, Pass), Byte)" % cond], {}))
     t.append(("AlignedStruct docstring", "mixed", ["AlignedStruct(4, 'a' / Int8ub, b=Int16ub, c=Int8ub)", "Struct('a' / Aligned(4, Int8ub), b=Aligned(4, Int16ub), c=Aligned(4, Int8ub))"], {}))
     t.append(("AlignedStruct docstring", "keywords", ["AlignedStruct(2, a=Int8ub, b=Int24ub)", "Struct(a=Aligned(2, Int8ub), b=Aligned(2, Int24ub))"], {}))
     return t
